@@ -82,12 +82,21 @@ def handle (line : String) : String :=
       -- but in the recording transport's log of the rekey runs
       let extInfo := if mode == "rekey" then false
         else if mode == "peerc" then (if kl.isSome then hasName "ext-info-c" else o.str "extinfo" == "1") else true
-      let cRes :=
+      -- a man in the middle that *replaces* the first KEXINIT of a direction by a KEXINIT of its own (insert at 0 +
+      -- delete / swap at 0): the type sequence stays plausible, but the two sides hash different transcripts
+      -- (C29: the exchange hash binds I_C and I_S), so neither side may complete — the type-level model cannot see it
+      let substituted := mode == "mitm" && o.str "ty2" == "20" && o.str "pos" == "0" &&
+        (o.str "act" == "del" || o.str "act" == "swap")
+      let noCompletion (who st : String) (r : Option String) : Option String :=
+        if substituted && st == "ok" then some s!"{who}: completed although a KEXINIT of the exchange was replaced"
+        else if substituted && (r.getD "").startsWith (who ++ ": model completes") then none
+        else r
+      let cRes := noCompletion "client" (i.str "c") <|
         if real2 || mode == "peers" then
           judgeEndpoint "client" ⟨strictToClient, kexTypesFor m true⟩ (toTypes dc) (toTypes sc) 0
             (i.str "c") crs cws (i.str "cstrict")
         else if i.str "c" == "-" then none else some "client result in a server-only run"
-      let sRes :=
+      let sRes := noCompletion "server" (i.str "s") <|
         if real2 || mode == "peerc" then
           judgeEndpoint "server" ⟨strictToServer, kexTypesFor m false⟩ (toTypes ds) (toTypes ss) (if extInfo then 1 else 0)
             (i.str "s") srs sws (i.str "sstrict")
